@@ -69,6 +69,8 @@ func (it *Interp) locked() bool { return it.M.OpenQ > 0 || it.cbLocked }
 
 func (it *Interp) count(class string) { it.Cnt[class]++ }
 
+func (it *Interp) countN(class string, n int) { it.Cnt[class] += n }
+
 // relsValid checks relation arguments for an operation adding components `added` (mask) to something.
 // Every relation component in added needs exactly one target; every target must be zero or alive.
 func (it *Interp) relsValid(added uint16, rels []RelSpec) bool {
